@@ -215,6 +215,9 @@ func runCase(c *Case) (nontrivial bool, err error) {
 		return fmt.Sprintf("attempt %d (%s of a %s configuration)", i, a.Op, a.Kind)
 	}
 	for i, o := range obs {
+		if o.Err == "SLOW-MACHINE" {
+			return false, fmt.Errorf("HARNESS: %s needed more than 10 s in a process starved of CPU: no verdict", describe(i))
+		}
 		if o.Err == "SIGNAL-NOT-HANDLED" {
 			return false, fmt.Errorf("HARNESS: %s: the process log shows no sign that the SIGUSR1 handler received the signal", describe(i))
 		}
